@@ -383,6 +383,32 @@ def main():
         # prefer genuine property failures over bare model/implementation disagreements
         unknown.sort(key=lambda f: (0 if f.get("kind", "violation") == "violation" else 1,
                                     len(json.dumps(f.get("input", ""), default=str))))
+        if getattr(mod, "CLEANROOM", False):
+            # the replay file must reproduce STAND-ALONE (in a new process).  A failing input
+            # found late in a long run may owe its failure to state that earlier cases left in a
+            # changed library (a cache, a shared object): each candidate is replayed in a clean
+            # room; the first that fails there is reported, refuted ones are demoted
+            refuted = confirmed = 0
+            try:
+                with C.CleanRoom("props." + pid.lower()) as room:
+                    for f in unknown:
+                        if f.get("kind", "violation") != "violation" or refuted >= 40:
+                            continue
+                        if room.replay(f).get("fails"):
+                            f["reproduces_alone"] = True
+                            confirmed = 1
+                            break
+                        refuted += 1
+                        f["kind"] = "not-reproducible-alone"
+                        f["note"] = ("fails inside the run (after other cases in the same process) "
+                                     "but not when replayed alone in a new process")
+            except Exception:
+                C.eprint(traceback.format_exc())
+            ctx.notes.append("clean-room confirmation of the reported input: {} refuted, {} "
+                             "confirmed".format(refuted, confirmed))
+            unknown.sort(key=lambda f: (0 if f.get("reproduces_alone") else 1,
+                                        0 if f.get("kind", "violation") == "violation" else 1,
+                                        len(json.dumps(f.get("input", ""), default=str))))
         f = unknown[0]
         genuine = f.get("kind", "violation") == "violation"
         payload = {"property": pid, "seed": seed, "tier": a.tier, "failure": f,
